@@ -249,15 +249,15 @@ pub const GO_NORMAL_POSITIONS: &[(&str, &str)] = &[
 ];
 
 /// First command of a history (sets whatever state a `go` can leave behind); each terminates on
-/// the normal positions. Tokens are the standard ones of the UCI `go` command.
+/// the normal positions. Tokens are the standard ones of the UCI `go` command; `infinite` and
+/// `ponder` are left out because an engine that implements them must not answer before `stop` /
+/// `ponderhit`, which this harness does not send.
 pub const GO_SETTERS: &[&str] = &[
     "go depth 2",
     "go depth 3 nodes 500000",
     "go nodes 100 depth 3",
     "go depth 2 mate 3",
     "go depth 2 movestogo 20",
-    "go infinite depth 2",
-    "go ponder depth 2",
 ];
 
 /// (command, budget in ms if it is a movetime; None = read the budget the engine derived from the clocks)
